@@ -15,14 +15,15 @@ pub fn t1() -> BoxedStrategy<Value> {
         0u8..48,
         (0u8..2, any::<bool>(), 0usize..6, 0u8..3),
         (0u8..5, 0u8..7, any::<bool>(), any::<bool>(), 0u8..3),
-        (any::<bool>(), 0u8..3, 0u8..4),
+        (any::<bool>(), 0u8..3, 0u8..4, any::<bool>()),
     )
         .prop_map(
-            |(align, (link_mode, a_pinned, site_i, rel_kind), (j, k, unlink_first, b_releases, collector), (third_owner, late, p_early))| {
+            |(align, (link_mode, a_pinned, site_i, rel_kind), (j, k, unlink_first, b_releases, collector), (third_owner, late, p_early, prestamp))| {
                 const SITES: [u32; 6] = [0, site::EPOCH_LOADED, site::DEC_S_LOAD, site::DEC_S_CAS, site::EPOCH_LOAD, site::LINK_SWAP];
                 let park = SITES[site_i];
                 let (a, b, c) = (0usize, 1usize, 2usize);
                 let mut t = TB::new(3);
+                t.prestamp = prestamp;
                 // setup by A
                 t.new_node(a, "X", None, None, 3, 40);
                 if link_mode == 0 {
@@ -859,12 +860,14 @@ pub fn t9() -> BoxedStrategy<Value> {
         0u8..48,
         (0usize..5, 0u8..3, 0u8..3, 0u8..3, 0u8..7),
         (0u8..4, any::<bool>(), 0u8..8, any::<bool>(), any::<bool>(), 0u8..3),
+        any::<bool>(),
     )
-        .prop_map(|(align, (site_i, a, b, c, settle), (install, retag, tag, g_finalize, link_stamped, t2_resume))| {
+        .prop_map(|(align, (site_i, a, b, c, settle), (install, retag, tag, g_finalize, link_stamped, t2_resume), prestamp)| {
             const SITES: [u32; 5] = [site::DEC_S_LOAD, site::EPOCH_LOADED, site::DEC_S_CAS, 0, site::EPOCH_LOAD];
             let park = SITES[site_i];
             let (m, t2, w, r) = (0usize, 1usize, 2usize, 3usize);
             let mut t = TB::new(4);
+            t.prestamp = prestamp;
             // setup by M
             t.new_node(m, "P", None, None, 3, 60);
             t.new_node(m, "H", None, None, 3, 20);
@@ -1141,10 +1144,12 @@ pub fn t12() -> BoxedStrategy<Value> {
         0u8..48,
         (2usize..5, 0u8..5, 0u8..4, 1u8..5, any::<bool>()),
         (0u8..3, any::<bool>(), 0u8..3, any::<bool>(), 0u8..3),
+        any::<bool>(),
     )
-        .prop_map(|(align, (np, gap, settle, k, two_live), (reader_kind, parents_after_read, split, m_pinned, late))| {
+        .prop_map(|(align, (np, gap, settle, k, two_live), (reader_kind, parents_after_read, split, m_pinned, late), prestamp)| {
             let (a, r, m) = (0usize, 1usize, 2usize);
             let mut t = TB::new(3);
+            t.prestamp = prestamp;
             t.new_node(a, "B", None, None, 3, 63);
             t.downgrade(a, "B", "wB");
             t.pin(a);
